@@ -146,11 +146,12 @@ def select_start_nodes(td, env, num_starts):
         env: Environment may determine the node selection strategy
         num_starts: Number of nodes to select. This may be passed when calling the policy directly. See :class:`rl4co.models.AutoregressiveDecoder`
     """
-    num_loc = env.generator.num_loc if hasattr(env.generator, "num_loc") else 0xFFFFFFFF
+    # number of nodes of the given instances (which may differ from the size the generator is configured with)
+    num_nodes = td["action_mask"].shape[-1]
     if env.name in ["tsp", "atsp", "flp", "mcp"]:
         selected = (
             torch.arange(num_starts, device=td.device).repeat_interleave(td.shape[0])
-            % num_loc
+            % num_nodes
         )
     elif env.name in ["jssp", "fjsp"]:
         raise NotImplementedError("Multistart not yet supported for FJSP/JSSP")
@@ -158,7 +159,7 @@ def select_start_nodes(td, env, num_starts):
         # Environments with depot: we do not select the depot as a start node
         selected = (
             torch.arange(num_starts, device=td.device).repeat_interleave(td.shape[0])
-            % num_loc
+            % (num_nodes - 1)
             + 1
         )
         if env.name == "op":
